@@ -56,9 +56,20 @@ def _copyrights_from_paragraph(
 
 def _convert_asterisk(path: str) -> str:
     """This solves a semantics difference. A singular asterisk is semantically
-    identical to a double asterisk in REUSE.toml.
+    identical to a double asterisk in REUSE.toml. An escaped asterisk is a
+    literal asterisk in both formats; escape sequences are copied as they are.
     """
-    return _SINGLE_ASTERISK_PATTERN.sub("**", path)
+    result = ""
+    unescaped = ""
+    chars = iter(path)
+    for char in chars:
+        if char == "\\":
+            result += _SINGLE_ASTERISK_PATTERN.sub("**", unescaped)
+            result += char + next(chars, "")
+            unescaped = ""
+        else:
+            unescaped += char
+    return result + _SINGLE_ASTERISK_PATTERN.sub("**", unescaped)
 
 
 def _paths_from_paragraph(paragraph: FilesParagraph) -> Union[str, list[str]]:
